@@ -740,6 +740,7 @@ loop:
 					// only send go away on idle stream not on an already-closed stream
 					if fr.Stream() > sc.lastID {
 						sc.writeGoAway(fr.Stream(), ProtocolError, "RST_STREAM on idle stream")
+						break loop
 					}
 
 					continue
@@ -757,6 +758,7 @@ loop:
 					case FramePriority, FrameWindowUpdate, FrameResetStream:
 					default:
 						sc.writeGoAway(fr.Stream(), StreamClosedError, "frame on closed stream")
+						break loop
 					}
 
 					continue
@@ -804,6 +806,13 @@ loop:
 
 				if fr.Stream() < sc.lastID {
 					sc.writeGoAway(fr.Stream(), ProtocolError, "stream ID is lower than the latest")
+
+					// The streams opened so far are served to the end. If there
+					// are none left nothing else would end the loop.
+					if canCloseAfterGoAway() {
+						break loop
+					}
+
 					continue
 				}
 
@@ -850,7 +859,7 @@ loop:
 				nstrm := strms.getPrevious(FrameHeaders)
 				if nstrm != nil && !nstrm.headersFinished {
 					sc.writeError(nstrm, NewGoAwayError(ProtocolError, "previous stream headers not ended"))
-					continue
+					break loop
 				}
 
 				for len(strms) != 0 {
